@@ -422,6 +422,15 @@ def show_impl(x):
     return res
 
 
+_GRID_IMPL, _GRID_MODEL = {}, {}     # (lo, n) -> full per-point lists (kept out of the evidence file)
+
+
+def _digest(lst):
+    import hashlib
+    return {"points": len(lst), "rejected": sum(1 for e in lst if e.startswith("!")),
+            "sha1": hashlib.sha1(",".join(lst).encode()).hexdigest()}
+
+
 def grid_impl(lo, n):
     t = Timestamp(seconds=0, microseconds=0)
     out = []
@@ -439,7 +448,9 @@ def impl(c):
     k = c["k"]
     try:
         if k == "grid":
-            return {"grid": grid_impl(c["lo"], c["n"])}
+            full = grid_impl(c["lo"], c["n"])
+            _GRID_IMPL[(c["lo"], c["n"])] = full
+            return {"grid": _digest(full)}
         if k == "ts":
             t = Timestamp(seconds=pv(c["s"]), microseconds=pv(c["us"]))
             fd = format_date(t)
@@ -539,7 +550,8 @@ def model(c, resp):
         out = []
         for e in r[1].split(","):
             out.append(e if ":" in e else "!" + ERRMAP.get(e, e))
-        return {"grid": out}
+        _GRID_MODEL[(c["lo"], c["n"])] = out
+        return {"grid": _digest(out)}
     if k == "ts":
         return {"s": int(r[1]), "us": int(r[2]), "fd": r[3], "pd": r[4]}
     if k == "pob":
@@ -615,9 +627,10 @@ def oracle(c, ires, mres):
         return why
     if k == "grid":
         i = 0
+        full = _GRID_IMPL[(c["lo"], c["n"])]
         for off in range(c["lo"], c["lo"] + c["n"]):
             for neg in (False, True):
-                e = ires["grid"][i]
+                e = full[i]
                 i += 1
                 good = not e.startswith("!")
                 ob, om = (bytes.fromhex(e.split(":")[0]), int(e.split(":")[1])) if good else (None, None)
@@ -724,8 +737,10 @@ def compare(c, ires, mres):
                 continue
             if f == "grid":
                 if mres[f] != ires[f]:
-                    bad = [i for i, (a, b) in enumerate(zip(mres[f], ires[f])) if a != b][:3]
-                    return "grid differs at %s" % [(c["lo"] + i // 2, bool(i % 2), mres[f][i], ires[f][i]) for i in bad]
+                    fm, fi = _GRID_MODEL[(c["lo"], c["n"])], _GRID_IMPL[(c["lo"], c["n"])]
+                    bad = [i for i, (a, b) in enumerate(zip(fm, fi)) if a != b][:3]
+                    return "grid differs at (offset, negative_utc, model, implementation) %s" % [
+                        (c["lo"] + i // 2, bool(i % 2), fm[i], fi[i]) for i in bad]
                 continue
             if mres[f] != ires.get(f):
                 return "%s: implementation %r, model %r" % (f, ires.get(f), mres[f])
